@@ -508,6 +508,10 @@ def _getattr(E, s, v, attr):
             if isinstance(cls, str) and ":" in cls:
                 rel, nm = cls.split(":")
                 cls = E.repo.find_class(rel, nm)
+            if isinstance(cls, SKind) and "__base__" in c.attrs:
+                # object of symbolic class: methods are those of the declared common base
+                rel, nm = c.attrs["__base__"].split(":")
+                cls = E.repo.find_class(rel, nm)
             if isinstance(cls, ClassRef):
                 f = E_class_lookup(E, cls, attr)
                 if f is not None:
